@@ -220,7 +220,7 @@ theorem nodup_dedup (l : List κ) : (dedup l).Nodup := by
 
 /-- what is left in `dirs` -/
 def kept (fs : FS κ) (c : κ) (seen : List κ) : List (κ × String) :=
-  (dset fs c).filter fun kd => decide (kd.1 ∉ seen) && fs.inJail kd.1 && !fs.hasToml kd.1
+  (dset fs c).filter fun kd => decide (kd.1 ∉ seen) && fs.inJail kd.1 && !fs.pruned kd.1
 
 /-- the keys `seen.update(dirs_set)` adds -/
 def newKeys (fs : FS κ) (c : κ) (seen : List κ) : List κ :=
@@ -246,7 +246,7 @@ theorem step_dead {fs : FS κ} {p : Path} {c : κ} {st st' : St κ} {ch : List (
   exact h.2.symm
 
 theorem mem_kept {fs : FS κ} {c : κ} {seen : List κ} {kd : κ × String} :
-    kd ∈ kept fs c seen ↔ kd ∈ dset fs c ∧ kd.1 ∉ seen ∧ fs.inJail kd.1 = true ∧ fs.hasToml kd.1 = false := by
+    kd ∈ kept fs c seen ↔ kd ∈ dset fs c ∧ kd.1 ∉ seen ∧ fs.inJail kd.1 = true ∧ fs.pruned kd.1 = false := by
   simp [kept, List.mem_filter, and_assoc]
 
 theorem kept_keys_nodup (fs : FS κ) (c : κ) (seen : List κ) : ((kept fs c seen).map (·.1)).Nodup := by
@@ -492,7 +492,7 @@ theorem cleanInv_step (fs : FS κ) (root : κ) (p : Path) (c : κ) (rest : List 
 def CovInv (fs : FS κ) (root : κ) (stack : List (Path × κ)) (st : St κ) : Prop :=
   StackJ fs stack ∧
   (root ∈ st.scans ∨ root ∈ stack.map (·.2)) ∧
-  (∀ k ∈ st.seen, fs.inJail k = true → fs.hasToml k = false → k ∈ st.scans ∨ k ∈ stack.map (·.2)) ∧
+  (∀ k ∈ st.seen, fs.inJail k = true → fs.pruned k = false → k ∈ st.scans ∨ k ∈ stack.map (·.2)) ∧
   (∀ b ∈ st.scans, ∀ e ∈ fs.entries b, ∀ k, e.kind = .dir k → k ∈ st.seen) ∧
   (∀ b ∈ st.scans, ∀ e ∈ fs.entries b, ∀ c, (e.kind = .file c ∨ e.kind = .dangling c) → e.wanted = true →
       fs.inJail c = true → ∃ q, (q, c) ∈ st.out) ∧
